@@ -59,6 +59,16 @@ def cases(tier, seed):
         yield dict(kind="direct", models=[dict(name=n, pk=p, ncols=2, crud=c, route="/api/" + slug(n)) for n, p, c in zip(("Config", "User"), ("explicit", "id"), cruds)])
     for cruds in itertools.product(CRUDS, repeat=3) if tier == "thorough" else itertools.product(("C", "RD", "CRD"), repeat=3):
         yield dict(kind="direct", models=[dict(name=n, pk=p, ncols=1, crud=c, route="/api/" + slug(n)) for n, p, c in zip(("Config", "User", "HTTPLog"), ("explicit", "id", "by_name"), cruds)])
+    if tier == "thorough":
+        # direct: every pair of names x every pair of primary-key kinds x every pair of CRUD subsets
+        for (n1, n2), pks, cruds in itertools.product(itertools.permutations(NAMES[:4], 2), itertools.product(PKS, repeat=2), itertools.product(CRUDS, repeat=2)):
+            yield dict(kind="direct", models=[dict(name=n, pk=p, ncols=1, crud=c, route="/api/" + slug(n)) for n, p, c in zip((n1, n2), pks, cruds)])
+        # pipeline: every pair of CRUD subsets x separate/shared routes file x every pair of primary-key kinds; the two-application documents over all CRUD pairs
+        for cruds, same_file, pks in itertools.product(itertools.product(CRUDS, repeat=2), (False, True), itertools.product(PKS, repeat=2)):
+            yield dict(kind="pipeline", app="rest_api", same_file=same_file, models=[dict(name=n, pk=p, ncols=1, crud=c, route="/api/" + slug(n)) for n, p, c in zip(("Config", "User"), pks, cruds)])
+        for cruds, same_file, pks in itertools.product(itertools.product(CRUDS, repeat=2), (True, False), (("explicit", "by_name"), ("id", "id"), ("by_name", "explicit"))):
+            yield dict(kind="pipeline", app="rest_api", same_file=same_file, two_apps=True,
+                       models=[dict(name=n, pk=p, ncols=1, crud=c, route="/api/" + slug(n), app=a) for n, p, c, a in zip(("Config", "User"), pks, cruds, ("rest_api", "admin_api"))])
     # (B) pipeline
     for name, pk, crud, route, app in itertools.product(NAMES, PKS, CRUDS, ROUTES, APPS):
         yield dict(kind="pipeline", app=app, models=[dict(name=name, pk=pk, ncols=2, crud=crud, route=route.format(n=slug(name)))])
